@@ -17,6 +17,7 @@ EXCLUDE_FILE = os.path.join(SIMDIR, "c20_exclude.json")
 # dies under ASan.  alignment (+14 %) and vptr (free) stay on: a misaligned load is silent on x86 under every other tool.
 SAN_FLAGS = ["-O0", "-fsanitize=address,undefined", "-fno-sanitize=null", "-fno-sanitize-recover=all", "-D_GLIBCXX_DEBUG"]
 PLAIN_FLAGS = ["-O0", "-g1"]
+PLAIN_STD = "-std=c++20"     # the memcheck build is also the C++20 build
 TSAN_FLAGS = ["-O1", "-g1", "-fsanitize=thread", "-DVRT_CONCURRENT"]
 WORKER_TIMEOUT = 900
 
@@ -205,6 +206,9 @@ def classify_death(rc, stderr):
     m = re.search(r"Error: ([^\n]{0,120})", s)
     if m and "_GLIBCXX" in s or (m and "attempt to" in s):
         return "glibcxx-debug:" + m.group(1).strip().rstrip("."), s
+    if "Stack overflow in thread" in stderr:      # valgrind's wording (memcheck build)
+        m = re.search(r"Stack overflow in thread[^\n]*", stderr)
+        return "stack-overflow", stderr[max(0, m.start() - 200):m.start() + 1300]
     if rc is None:
         return "hang", s
     if rc < 0:
@@ -452,13 +456,23 @@ def gen_cold(h, rng, nplans, alloc_counts=None):
 
 
 def mem_available_gib():
+    avail = 0.0
     try:
         for line in open("/proc/meminfo"):
             if line.startswith("MemAvailable:"):
-                return int(line.split()[1]) / (1 << 20)
+                avail = int(line.split()[1]) / (1 << 20)
     except OSError:
-        pass
-    return 0.0
+        return 0.0
+    for path, cur in (("/sys/fs/cgroup/memory.max", "/sys/fs/cgroup/memory.current"),
+                      ("/sys/fs/cgroup/memory/memory.limit_in_bytes", "/sys/fs/cgroup/memory/memory.usage_in_bytes")):
+        try:
+            lim = open(path).read().strip()
+            if lim.isdigit():
+                used = int(open(cur).read().strip())
+                avail = min(avail, max(0, int(lim) - used) / (1 << 30))
+        except (OSError, ValueError):
+            pass
+    return avail
 
 
 def gen_huge(h, rng, thorough):
@@ -711,6 +725,8 @@ def replay(path, quiet=False):
     if plan.get("build") == "uchar":
         flags_ = SAN_FLAGS + ["-funsigned-char"]
     h = Harness(common.scratch("c20r"), flags_, only=names, ntus=1, label="replay")
+    if valgrind:
+        h.std = PLAIN_STD
     err = h.build()
     if err:
         if not quiet:
@@ -761,6 +777,10 @@ def main(tier, seed):
     hs = Harness(os.path.join(root, "san"), SAN_FLAGS, subset=subset, label="san", ntus=nsan)
     psub = subset if thorough else {"double": subset["double"]}
     hp = Harness(os.path.join(root, "plain"), PLAIN_FLAGS, subset=psub, label="plain", ntus=nplain)
+    # language-version portability: the library supports "C++17 or any more recent standard", and C++20 changes overload
+    # resolution for comparison operators (rewritten and reversed candidates).  Uninitialised reads do not depend on the language
+    # version, so the memcheck build doubles as the C++20 build at no extra compile cost.
+    hp.std = PLAIN_STD
     # concurrent build (ThreadSanitizer): classes x double + all unit/enum/base/model ops in quick, everything in thorough
     tsub = subset if thorough else {"double": subset["double"]}
     ht = Harness(os.path.join(root, "tsan"), TSAN_FLAGS, subset=tsub, label="tsan", ntus=ntsan)
@@ -936,7 +956,13 @@ def main(tier, seed):
         log("  memcheck tier skipped: valgrind not found")
     if huge_thread is not None:
         huge_thread.join()
-        execute("huge-operands", hs.exe, huge_runs, precomputed=huge_box["out"])
+        hev, hst, hrs = huge_box["out"]
+        killed = [e for e in hev if e["cls"] == "signal:SIGKILL"]
+        if killed:
+            # the kernel's out-of-memory killer (these processes hold 2-8 GiB each): says nothing about the library
+            log("  note: %d huge-operand processes were killed (SIGKILL, presumably out of memory); not counted" % len(killed))
+            hev = [e for e in hev if e["cls"] != "signal:SIGKILL"]
+        execute("huge-operands", hs.exe, huge_runs, precomputed=(hev, hst, hrs))
         log("  (huge-operand batch: %d processes on %d cores alongside the other batches, %.0fs)" % (len(huge_runs), huge_jobs, huge_box["wall"]))
     evaluations = totals.get("execs", 0)
 
@@ -1043,7 +1069,7 @@ def main(tier, seed):
         "determinism_sample": {"plans": len(det_runs), "worker_assignments": [1, min(16, common.NCPU)], "identical": True},
         "violation_groups": len(groups), "known_findings_matched": len(known_lines),
         "components": {"real": ["all PhQ headers from /repo/include (working tree)", "libstdc++ (strings, streams, containers, stod family) in debug mode",
-                                "ASan", "UBSan (all of -fsanitize=undefined except the null check)", "valgrind memcheck on a plain -O0 build", "ThreadSanitizer on a third build (two real threads inside the library at once)",
+                                "ASan", "UBSan (all of -fsanitize=undefined except the null check)", "valgrind memcheck on a plain -O0 build compiled as C++20 (every other build is C++17)", "ThreadSanitizer on a third build (two real threads inside the library at once)",
                                 "a sanitizer build with -funsigned-char (text-handling ops in quick, everything in thorough)"],
                        "simulated": ["allocator's decision to fail (replaced global operator new)", "stream sink (std::streambuf with byte budget, 3 failure modes, preset state bits/flags, null buffer)"],
                        "absent_no_seam": ["clock", "network", "disk", "threads"]},
@@ -1053,9 +1079,10 @@ def main(tier, seed):
     common.write_evidence(PROP, tier, seed, "fault_enumeration", cov, wall, nviol,
                           ["finite inputs only: every operand handed to the library is finite; objects whose construction overflowed are rebuilt from modest values",
                            "with the caller's stream exception mask ON, std::ios_base::failure (and the simulated device's own exception) may propagate: that is the caller's request; std::terminate or any other exception is still a violation",
-                           "global locale, C locale and rounding mode are at their defaults",
+                           "global C++ locale, C locale and rounding mode are at their defaults except in the batches named for them (two locale environments, three rounding modes, one global numpunct locale)",
                            "std::tolower/toupper on negative char values is defined by glibc and not flagged by any tool here",
-                           "data races need threads, which no property calls for",
+                           "concurrency: data races only (ThreadSanitizer on pairs of calls on two threads); nothing is claimed about results under concurrency",
+                           "huge text operands (2^31 bytes and more) run only when at least 12 GiB of memory is available; a process killed by the kernel there is not counted",
                            "an allocating noexcept function that terminates under an injected failure is counted, not flagged"])
     log("C20 %s: executions=%d distinct(op,fault,pos)=%d violation groups=%d wall=%.0fs -> exit %d" % (tier, evaluations, len(distinct), len(groups), wall, exit_code))
     return exit_code
